@@ -196,7 +196,7 @@ theorem C14_read_suffix (C : Codec) (F : Flags) (st : Store) (d : Digest) (c : B
     refine ⟨?_, ?_⟩
     · intro hin
       have hok : offsetOk c.length off = true := (offsetOk_iff _ _).mpr hin
-      simp [ByteStream.read, hg, hok, hR]
+      simp [ByteStream.read, hg, hok, hR, zsend]
     · intro hout
       have hok : offsetOk c.length off = false := by
         cases h : offsetOk c.length off with
@@ -229,7 +229,7 @@ theorem C14_read_never_foreign (C : Codec) (F : Flags) (st : Store) (kind : Name
       | error e => rfl
       | ok c =>
         simp only
-        cases F.strictR <;> cases offsetOk c.length off <;> simp
+        cases F.strictR <;> cases offsetOk c.length off <;> simp [zsend] <;> split <;> rfl
     | identity =>
       cases hg : getValidated C st d fault with
       | error e => left; simp [r, ByteStream.read, hl, hg]
@@ -304,17 +304,23 @@ theorem C14_read_stream_ok_complete (C : Codec) (F : Flags) (hR : F.strictR = tr
             simp [r, readS, hl, hok, hR, hc]
           rw [hr2] at hres
           exact absurd hres hc.2
-        · have hr2 : r = { zdata := some (C.enc (normalize cs (skipBytes off.toNat (vstart C d 13 s).1)).flatten),
-                           res := (vstart C d 13 s).2 } := by
+        · have hr2 : r = zsend C (normalize cs (skipBytes off.toNat (vstart C d 13 s).1)).flatten failAt (vstart C d 13 s).2 := by
             simp only [r, readS, hl, hok, hR]
             simp [hc]
           rw [hr2] at hres
-          have hres' : (vstart C d 13 s).2 = none := hres
-          have hv := vstart_ok C d 13 s (vstart C d 13 s).1 (by rw [← hres'])
-          refine ⟨hv.1, hv.2.2, hin.1, hin.2, (fun h => by cases h), fun _ => ?_⟩
-          rw [hr2]
-          show some (C.enc (normalize cs (skipBytes off.toNat (vstart C d 13 s).1)).flatten) = _
-          rw [normalize_flatten cs hcs, skipBytes_flatten, hv.2.1]
+          unfold zsend at hres hr2
+          by_cases hz : failAt = 0
+          · simp only [hz, if_true] at hres hr2
+            have hres' : (vstart C d 13 s).2 = none := hres
+            have hv := vstart_ok C d 13 s (vstart C d 13 s).1 (by rw [← hres'])
+            refine ⟨hv.1, hv.2.2, hin.1, hin.2, (fun h => by cases h), fun _ => ?_⟩
+            rw [hr2]
+            show some (C.enc (normalize cs (skipBytes off.toNat (vstart C d 13 s).1)).flatten) = _
+            rw [normalize_flatten cs hcs, skipBytes_flatten, hv.2.1]
+          · simp only [hz, if_false] at hres
+            cases hv2 : (vstart C d 13 s).2 with
+            | none => rw [hv2] at hres; cases hres
+            | some e => rw [hv2] at hres; cases hres
 
 /-- D6 in the model: the code as pinned ignores `read_offset` on the compressed path. -/
 theorem C14_read_legacy_ignores_offset (C : Codec) (F : Flags) (hR : F.strictR = false) (st : Store)
